@@ -251,6 +251,12 @@ class InotifyEmitter(EventEmitter):
                 if issubclass(event_cls, cls):
                     event_mask |= native
 
+        if event_mask & InotifyConstants.IN_MOVED_FROM:
+            # The kernel drops an event that equals the one queued just before it, and does not
+            # look at the cookie: two IN_MOVED_FROM of one name would merge and the second rename
+            # lose its pairing. The name must have been re-created in between: keep that visible.
+            event_mask |= InotifyConstants.IN_CREATE
+
         return event_mask
 
 
